@@ -37,7 +37,12 @@ TRUSTED = ['tools/props/c09_export.py (reads Syntax.syntax and the productions/c
            'tools/props/c09_replay.py Python mirror of render/matches (cross-checked against the Coq functions on every run)']
 ASSUMPTIONS = ['labels are identifiers that are not keywords of the assembler in any letter case (keyword labels: refuted, see '
                'c09_keyword_label_refuted)',
-               'PYTHONHASHSEED is fixed: among ambiguous productions of equal priority the Earley parser picks by set iteration order',
+               'among ambiguous productions of equal priority the Earley parser picks by set iteration order, i.e. by the per-process '
+               'string hash seed (the driver fixes PYTHONHASHSEED for child processes only): which member of a pair of '
+               'ambiguous_<arch> fails therefore varies from run to run. Known findings are generated seed-independently by '
+               'tools/props/c09_known.py (a partner production of equal or better priority recognises the printed text and its '
+               'instance encodes differently / raises) and only excuse a failure when the real assembler really built that partner '
+               '(rec reason = ambiguous-pair, partner taken from the proved table)',
                'operand tuples are those accepted by encode(); out-of-range operands are C10']
 
 QUICK_PER_ISA = 40
@@ -85,7 +90,7 @@ def regen(ctx):
             continue
         ctx.write_gen('Tab_syntax_' + nm, text)
         B[nm] = dict(info=info, entries=entries, good=good, bad=bad, xgood=xgood, xbad=xbad, amb=amb, unm=unm,
-                     skipped=skipped, kws=set(info.kws))
+                     skipped=skipped, kws=set(info.kws), ambset=set(amb))
     return B
 
 
@@ -122,7 +127,7 @@ def find_entry(b, ins):
     return None, ub[1]
 
 
-def replay(ctx, nm, b, e, ins, mops):
+def replay(ctx, nm, b, e, ins, mops, k=None):
     """the real property on one instance; returns (kind, rec or None, emitted instructions, text)"""
     from props import c09_replay as R
     info = b['info']
@@ -142,9 +147,18 @@ def replay(ctx, nm, b, e, ins, mops):
         kind, actual, detail = 'crash', '%s: %s' % (type(ex).__name__, str(ex)[:100]), 'crash'
     if kind == 'ok':
         return kind, None, emitted, text
-    picked = [type(x).__name__ for x in emitted if getattr(type(x), 'syntax', None) is not None]
+    pins = [x for x in emitted if getattr(type(x), 'syntax', None) is not None]
+    picked = [type(x).__name__ for x in pins]
+    # reason 'ambiguous-pair': the assembler built exactly one instruction, of a class variant j such that (k, j) is in
+    # the proved-exact table ambiguous_<arch>; every other failure is 'other' and is never excused by a known finding
+    reason, partner = 'other', None
+    if k is not None and kind in ('differs', 'crash') and len(pins) == 1:
+        j, _ops = find_entry(b, pins[0])
+        if j is not None and j != k and (min(j, k), max(j, k)) in b['ambset']:
+            reason, partner = 'ambiguous-pair', '%s/%s' % (b['good'][j]['cls'], b['good'][j]['variant'])
     rec = {'fn': 'asm_roundtrip', 'isa': nm, 'class': e['cls'], 'kind': kind, 'detail': detail, 'variant': e['variant'],
-           'key': 'asm_roundtrip:%s:%s:%s' % (nm, e['cls'], kind),
+           'reason': reason, 'ambiguous_partner_picked': partner,
+           'key': 'asm_roundtrip:%s:%s:%s:%s' % (nm, e['cls'], kind, reason),
            'args': [list(m) for m in mops], 'text': text, 'picked': picked,
            'expected': dict(sections=[(n, d.hex()) for n, d in exp[0]], relocations=[list(r) for r in exp[1]]),
            'actual': actual,
@@ -217,7 +231,7 @@ def work(ctx, B, correspondence):
     st = ctx.cov['stages']
     deep = (not ctx.quick()) or bool(ctx.failed_stages)
     n_per = 20 if not ctx.quick() else 4
-    corr_cap = 70 if ctx.quick() else 500      # model/lexer/recogniser cases per ISA (every instance is replayed)
+    corr_cap = 45 if ctx.quick() else 500      # model/lexer/recogniser cases per ISA (every instance is replayed)
     rcases, rrecs = [], []      # render vs lexer
     mcases, mrecs = [], []      # matching_from vs mirror
     dist = {}
@@ -250,7 +264,7 @@ def work(ctx, B, correspondence):
                     if ub is not None and '/'.join(ub[0]) == e['variant']:
                         mops = ub[1]
                 try:
-                    kind, rec, emitted, text = replay(ctx, nm, b, e, ins, mops)
+                    kind, rec, emitted, text = replay(ctx, nm, b, e, ins, mops, k)
                 except Exception as ex:   # noqa: BLE001   (emitting the instance directly failed: not a C09 case)
                     d['instances'] -= 1
                     continue
